@@ -194,6 +194,37 @@ func (c *Ctx) resolveSelect(h, ref string, depth int) string {
 	return ""
 }
 
+// olderThan reports whether every declared (unconstrained) symbol the term depends on,
+// looking through definitions, was introduced before position mark.
+func (c *Ctx) olderThan(term string, mark int) bool {
+	seen := map[string]bool{}
+	var visit func(t string) bool
+	visit = func(t string) bool {
+		for _, tk := range tokens(t) {
+			i, ok := c.idx[tk]
+			if !ok || seen[tk] {
+				continue
+			}
+			seen[tk] = true
+			line := c.defs[i].line
+			if strings.HasPrefix(line, "(declare-const") {
+				if i >= mark {
+					return false
+				}
+				continue
+			}
+			if i >= mark {
+				// a definition made after the mark: look at what it is defined from
+				if !visit(line[strings.Index(line, tk)+len(tk):]) {
+					return false
+				}
+			}
+		}
+		return true
+	}
+	return visit(term)
+}
+
 // chainOf views an array term as a chain of stores over a root: it returns the root and
 // the references stored to, innermost first.
 func (c *Ctx) chainOf(t string) (root string, refs []string) {
@@ -397,7 +428,7 @@ func (c *Ctx) queryMode(asserts []string, extra []string, mode int) string {
 				p = alt
 			}
 		}
-		if mode >= 2 && strings.HasPrefix(p, "(assert (forall") {
+		if mode >= 1 && strings.HasPrefix(p, "(assert (forall") {
 			continue
 		}
 		b.WriteString(p)
